@@ -1958,3 +1958,125 @@ Section ComposeChunk.
     - apply il_convert_correct_lemma; rewrite ?repeat_length; auto.
   Qed.
 End ComposeChunk.
+
+(* ------------------------------------------------------------------------------------------ *)
+(** * History level: the extracted GRwriteimage / GRreadimage models simulate the specification *)
+
+Lemma codec_involutive : forall b c, codec b (codec b c) = c.
+Proof. intros [] c; simpl; auto. apply rev_involutive. Qed.
+
+(** M's image (element in disk format, None while the file has no data) represents S's image *)
+Definition img_rel (m : mimg) (s : simg) : Prop :=
+  m_g m = s_g s /\ m_wil m = s_wil s /\ m_ril m = s_ril s /\ m_fill m = s_fill s /\
+  1 <= gnc (m_g m) /\
+  (forall p, m_fill m = Some p -> length p = gnc (m_g m)) /\
+  match m_elt m, s_data s with
+  | Some e, Some img => img = map (map (codec (gswap (m_g m)))) e /\ length e = gx (m_g m) * gy (m_g m) /\
+                        (forall px, In px e -> length px = gnc (m_g m))
+  | None, None => True
+  | _, _ => False
+  end.
+
+Lemma fill_of_length : forall g f, (forall p, f = Some p -> length p = gnc g) -> length (fill_of g f) = gnc g.
+Proof. intros g [p|] H; simpl; [apply H; auto | unfold zero_px; apply repeat_length]. Qed.
+
+Lemma group_length : forall cs n bytes, length (group cs n bytes) = n.
+Proof. intros. unfold group. rewrite map_length, seq_length. reflexivity. Qed.
+
+Lemma spec_write_px_lengths : forall {T} (img data : list (list T)) xdim ydim r nc,
+    rgn_inside xdim ydim r = true -> length img = xdim * ydim -> length data = r_cx r * r_cy r ->
+    (forall px, In px img -> length px = nc) -> (forall px, In px data -> length px = nc) ->
+    forall px, In px (spec_write_px [] img xdim ydim r data) -> length px = nc.
+Proof.
+  intros T img data xdim ydim r nc Hin Hl Hd Hi Hdt px Hpx.
+  pose proof (inside_facts _ _ _ Hin) as (Htx & Hty & Hcx & Hcy & Hx & Hy).
+  unfold spec_write_px in Hpx. apply in_map_iff in Hpx. destruct Hpx as [p [<- Hp]]. apply in_seq in Hp.
+  destruct (in_lattice (r_sy r) (r_ty r) (r_cy r) (p / xdim)) as [i|] eqn:E1;
+    [destruct (in_lattice (r_sx r) (r_tx r) (r_cx r) (p mod xdim)) as [j|] eqn:E2|];
+    try (apply Hi; apply nth_In; lia).
+  apply in_lattice_some in E1; auto. apply in_lattice_some in E2; auto.
+  apply Hdt. apply nth_In. rewrite Hd. apply px_index_lt; tauto.
+Qed.
+
+Lemma user_pixels_lengths : forall {C} (d0 : C) wil cx cy nc user px,
+    In px (user_pixels d0 wil cx cy nc user) -> length px = nc.
+Proof.
+  intros C d0 wil cx cy nc user px H. unfold user_pixels in H. apply in_map_iff in H. destruct H as [k [<- _]].
+  rewrite map_length, seq_length. reflexivity.
+Qed.
+
+(** every GRwriteimage the specification accepts is performed by the model, and the images stay related *)
+Lemma sim_writeimage_lemma : forall m s r bytes s',
+    img_rel m s -> s_writeimage s r bytes = Some s' ->
+    exists m' tr, m_writeimage m r bytes = Some (m', tr) /\ img_rel m' s'.
+Proof.
+  intros m s r bytes s' (Hg & Hw & Hr & Hf & Hnc & Hfl & Hd) Hs.
+  unfold s_writeimage in Hs. rewrite <- Hg in Hs.
+  destruct (rgn_inside (gx (m_g m)) (gy (m_g m)) r && (length bytes =? r_cx r * r_cy r * gnc (m_g m) * gcs (m_g m))) eqn:E;
+    [|discriminate].
+  apply andb_prop in E. destruct E as [Hin _]. injection Hs as <-.
+  pose proof (inside_facts _ _ _ Hin) as (Htx & Hty & Hcx & Hcy & Hx & Hy).
+  unfold m_writeimage.
+  assert (Ea : args_ok r = true).
+  { unfold args_ok. repeat (apply andb_true_intro; split); apply Nat.leb_le; auto. }
+  rewrite Ea. cbn [negb]. eexists. eexists. split; [reflexivity|].
+  set (g := m_g m) in *. set (user := group (gcs g) (r_cx r * r_cy r * gnc g) bytes).
+  set (d0 := repeat 0%Z (gcs g)).
+  assert (Hu : length user = r_cx r * r_cy r * gnc g) by apply group_length.
+  assert (Hfill : length (fill_of g (m_fill m)) = gnc g) by (apply fill_of_length; auto).
+  assert (Hel : forall l, m_elt m = Some l -> length l = gx g * gy g).
+  { intros l El. rewrite El in Hd. destruct (s_data s); [tauto|contradiction]. }
+  pose proof (image_write_refines_lemma (codec (gswap g)) (codec (gswap g)) d0 (codec_involutive (gswap g))
+                                        (m_elt m) (gx g) (gy g) (gnc g) (m_wil m) r (fill_of g (m_fill m)) user
+                                        Hnc Hin Hu Hel) as R.
+  assert (Eimg : match m_elt m with
+                 | Some l => map (map (codec (gswap g))) l
+                 | None => repeat (fill_of g (m_fill m)) (gx g * gy g)
+                 end = match s_data s with Some i => i | None => repeat (fill_of g (s_fill s)) (gx g * gy g) end).
+  { destruct (m_elt m), (s_data s); try contradiction; [symmetry; tauto | rewrite Hf; reflexivity]. }
+  rewrite Eimg in R.
+  unfold img_rel. cbn [m_set_elt s_set_data m_g s_g m_wil s_wil m_ril s_ril m_fill s_fill m_elt s_data].
+  rewrite <- Hw. do 6 (split; [solve [auto] |]). split; [symmetry; exact R | split].
+  - apply (f_equal (@length _)) in R. rewrite map_length in R. rewrite R.
+    unfold s_write, spec_write_px. rewrite map_length, seq_length. reflexivity.
+  - intros px Hpx.
+    assert (Hpx' : In (map (codec (gswap g)) px) (map (map (codec (gswap g)))
+                     (m_write (codec (gswap g)) d0 (m_elt m) (gx g) (gy g) (gnc g) (m_wil m) r (fill_of g (m_fill m)) user)))
+      by (apply in_map; auto).
+    rewrite R in Hpx'. rewrite <- (map_length (codec (gswap g)) px).
+    unfold s_write in Hpx'.
+    eapply (spec_write_px_lengths _ _ (gx g) (gy g) r (gnc g) Hin); [| | | | exact Hpx'].
+    + destruct (m_elt m) as [l|], (s_data s) as [i|]; try contradiction.
+      * destruct Hd as (-> & Hl & _). rewrite !map_length. auto.
+      * apply repeat_length.
+    + unfold user_pixels. rewrite map_length, seq_length. reflexivity.
+    + intros q Hq. destruct (m_elt m) as [l|], (s_data s) as [i|]; try contradiction.
+      * destruct Hd as (-> & _ & Hp). apply in_map_iff in Hq. destruct Hq as [q' [<- Hq']]. rewrite map_length. auto.
+      * apply repeat_spec in Hq. subst q. rewrite <- Hf. auto.
+    + intros q Hq. eapply user_pixels_lengths; eauto.
+Qed.
+
+(** every GRreadimage the specification defines returns, in the model, exactly the specified bytes *)
+Lemma sim_readimage_lemma : forall m s r out,
+    img_rel m s -> s_readimage s r = Some out -> exists tr, m_readimage m r = Some (out, tr).
+Proof.
+  intros m s r out (Hg & Hw & Hr & Hf & Hnc & Hfl & Hd) Hs.
+  unfold s_readimage in Hs. rewrite <- Hg in Hs.
+  destruct (rgn_inside (gx (m_g m)) (gy (m_g m)) r) eqn:Hin; [|discriminate]. injection Hs as <-.
+  pose proof (inside_facts _ _ _ Hin) as (Htx & Hty & Hcx & Hcy & Hx & Hy).
+  unfold m_readimage.
+  assert (Ea : args_ok r = true).
+  { unfold args_ok. repeat (apply andb_true_intro; split); apply Nat.leb_le; auto. }
+  rewrite Ea. cbn [negb]. set (g := m_g m) in *.
+  destruct (m_elt m) as [e|] eqn:Ee, (s_data s) as [img|] eqn:Es; try contradiction.
+  - destruct Hd as (-> & Hl & Hp). eexists. f_equal. f_equal. f_equal. rewrite <- Hr.
+    apply (image_read_refines_lemma (codec (gswap g)) (codec (gswap g)) (repeat 0%Z (gcs g))); auto.
+  - eexists. f_equal. f_equal. f_equal. rewrite <- Hr, <- Hf.
+    apply read_nodata_refines_lemma; auto. apply fill_of_length; auto.
+Qed.
+
+Lemma img_rel_create_lemma : forall g il, 1 <= gnc g -> img_rel (m_create g il) (s_create g il).
+Proof. intros g il H. unfold img_rel. simpl. repeat split; auto. intros p Hp. discriminate. Qed.
+
+Lemma img_rel_reqil_lemma : forall m s il, img_rel m s -> img_rel (m_reqil m il) (s_reqil s il).
+Proof. intros m s il H. unfold img_rel in *. simpl. tauto. Qed.
